@@ -11,6 +11,7 @@
    for families whose sets are pairwise equal or disjoint, and characterised exactly
    by relay_lacks_output = false. *)
 From PV Require Import Base.Tac Bcast.BcastDefs Bcast.BcastBits Bcast.BcastTopo Bcast.BcastProofs.
+From PV Require Gen.Gen_bcast Gen.GenEq_bcast.
 From Coq Require Import NArith.
 Local Open Scope N_scope.
 
@@ -119,6 +120,18 @@ Proof.
   intros t q Hq. split; [apply parent_idx_range; lia|]. intros p Hp. now apply unique_parent.
 Qed.
 Print Assumptions C13_unique_parent.
+
+(* translator tie: the three child predicates the theorems above are about are the C functions
+   remote_dep_bcast_{star,chainpipeline,binomial}_child of parsec/remote_dep.c, translated from the
+   current C text on every run (Gen/Gen_bcast.v, tools/c2gallina.py), for every pair of ints *)
+Theorem C13_child_predicates_are_the_code : forall t me him,
+  (match t with
+   | Star => PV.Gen.Gen_bcast.remote_dep_bcast_star_child me him
+   | Chain => PV.Gen.Gen_bcast.remote_dep_bcast_chainpipeline_child me him
+   | Binomial => PV.Gen.Gen_bcast.remote_dep_bcast_binomial_child me him
+   end) = if child_fn t me him then 1%Z else 0%Z.
+Proof. exact PV.Gen.GenEq_bcast.child_predicates_are_the_code. Qed.
+Print Assumptions C13_child_predicates_are_the_code.
 
 (* non-vacuity: 8 ranks, root 3, two overlapping outputs, binomial tree: the hypotheses
    hold, seven ranks are activated once each; and an instance of the positive payload theorem *)
